@@ -68,6 +68,7 @@ def explore(cdef, interp, max_paths=400):
             last = c.obligations[-1]
             info["covers"].append(last)
     Ctx.current = None
+    info["ctx"] = c
     return c.obligations, info
 
 
